@@ -569,6 +569,7 @@ func (c *control) dirJustify(colon, at bool, params []any) {
 		padCnt = slip.RightMarginValue(c.scope.Get(slip.Symbol("*print-right-margin*")), 0)
 	}
 	for _, c2 := range segments {
+		c2.argPos = c.argPos // each segment goes on where the one before it stopped
 		c2.process()
 		padCnt -= len(c2.out)
 		c.argPos = c2.argPos
